@@ -56,6 +56,11 @@ FirstError(items) ==
     THEN CHOOSE i \in 1..Len(items) : items[i] = -1 /\ \A j \in 1..(i - 1) : items[j] # -1
     ELSE 0
 
+\* The collectors are parametric in the element type - element types of size ZERO included (the `()` results
+\* of a validation pass collected with a trusted collector): the length is then all there is to preserve.
+ZeroSized(n) == [i \in 1..n |-> <<>>]
+ZeroSizedOK == \A n \in 0..MaxN : Len(ZeroSized(n)) = n
+
 (* ---- trusted collection ----------------------------------------------------------- *)
 
 \* What a trusted source announces for n remaining items.  The crate's TrustedLen contract
